@@ -192,6 +192,12 @@ func (c BatchedPrivateClient) CreateTokenRequestWithBlinds(challenge []byte, non
 		if err != nil {
 			return BatchedPrivateTokenRequestState{}, err
 		}
+		// A zero blind is not invertible: the blinded element would be the
+		// identity, the issuer's proof over it is valid, and finalization
+		// would return a token that does not verify.
+		if blinds[i].IsZero() {
+			return BatchedPrivateTokenRequestState{}, fmt.Errorf("invalid blind: zero")
+		}
 	}
 
 	finalizeData, evalRequest, err := client.DeterministicBlind(tokenInputs, blinds)
